@@ -11,6 +11,10 @@ LOCAL_GATES = ['pyclifford/circuit.py::CliffordGate.forward#generator_local', 'p
 LOCAL_STATE = ['pyclifford/paulialg.py::PauliList.rotate_by#mask_state', 'pyclifford/circuit.py::CliffordGate.forward#generator_local_state',
                'pyclifford/circuit.py::CliffordGate.backward#generator_local_state', 'pyclifford/paulialg.py::PauliList.transform_by#mask_state',
                'pyclifford/circuit.py::CliffordGate.forward#map_local_state']
+RANDOM_STATE = [ST + 'random_clifford_map', ST + 'random_clifford_state#none', ST + 'random_clifford_state#r', ST + 'random_pauli_state#none', ST + 'random_pauli_state#r',
+                'pyclifford/circuit.py::CliffordGate.forward#random_global_state', 'pyclifford/circuit.py::CliffordGate.forward#random_local_state',
+                'pyclifford/circuit.py::CliffordGate.backward#random_state']
+RANDOM_CLIFFORD = [U + 'random_clifford.random_clifford_', U + 'random_clifford', U + 'clifford_rotate_signless']
 MASK_LEMMAS = ['mask_index', 'inq_exists', 'inq_member', 'expand_sums', 'split_acq', 'acqout_ext']
 CLASS_LAYER = [PA + 'Pauli.__matmul__#Pauli', PA + 'Pauli.__neg__', PA + 'Pauli.copy', PA + 'PauliList.copy',
                PA + 'PauliList.rotate_by#nomask', PA + 'PauliList.transform_by#nomask', PA + 'PauliList.rotate_by#mask', PA + 'PauliList.transform_by#mask', ST + 'CliffordMap.copy', ST + 'CliffordMap.compose',
@@ -20,7 +24,8 @@ CLASS_LAYER = [PA + 'Pauli.__matmul__#Pauli', PA + 'Pauli.__neg__', PA + 'Pauli.
                'pyclifford/circuit.py::CliffordGate.forward#generator_global', 'pyclifford/circuit.py::CliffordGate.backward#generator_global',
                'pyclifford/circuit.py::CliffordGate.forward#map_global'] + GATES[3:] + LOCAL_GATES + LOCAL_STATE + \
               [PA + '%s.__rmul__#%s' % (c, t) for c in ('Pauli', 'PauliList') for t in ('1', 'i', 'm1', 'mi')] + \
-              [PA + 'pauli#codes', PA + 'pauli#chars', PA + 'pauli#str', PA + 'PauliList.__getitem__#mask', PA + 'PauliList.__getitem__#slice', PA + 'PauliList.__getitem__#index']
+              [PA + 'pauli#codes', PA + 'pauli#chars', PA + 'pauli#str', PA + 'PauliList.__getitem__#mask', PA + 'PauliList.__getitem__#slice', PA + 'PauliList.__getitem__#index'] + \
+              RANDOM_STATE + RANDOM_CLIFFORD[:2]
 
 # every kernel that currently has a discharged contract (their frame.* obligations are the C17 frame conditions)
 MEASURE_LEMMAS = ['ordp_parity', 'xzpartial_full', 'selacq_map', 'selacq_image', 'partnersum_acq', 'transform_preserves_acq', 'acq_diff2', 'onsite_flat', 'acq_bilinear', 'acq_antisym', 'ipow_parity', 'ordg_bits', 'acq_zero', 'ordg_acq', 'selacq_gram', 'acqsum_ext',
@@ -82,12 +87,15 @@ def C05(run):
     run.deductive(keys=[U + 'stabilizer_measure', U + 'stabilizer_project', U + 'map_to_state', U + 'clifford_rotate', ST + 'CliffordMap.to_state#r',
                         ST + 'CliffordMap.to_state#none', ST + 'StabilizerState.copy', ST + 'StabilizerState.measure#list', ST + 'StabilizerState.measure#state',
                         ST + 'StabilizerState.postselect', 'pyclifford/circuit.py::MeasureLayer.forward', U + 'stabilizer_postselection', PA + 'PauliList.rotate_by#state', PA + 'PauliList.transform_by#state', GATES[3], GATES[4], GATES[5],
-                        U + 'stabilizer_projection_trace', U + 'mask', PA + 'PauliList.rotate_by#mask', PA + 'PauliList.transform_by#mask'] + LOCAL_STATE, lemmas=MEASURE_LEMMAS + MASK_LEMMAS)
+                        U + 'stabilizer_projection_trace', U + 'mask', PA + 'PauliList.rotate_by#mask', PA + 'PauliList.transform_by#mask'] + LOCAL_STATE + RANDOM_STATE + RANDOM_CLIFFORD,
+                  lemmas=MEASURE_LEMMAS + MASK_LEMMAS + ['acq_drop2', 'rot_preserve', 'acq_local'])
     run.bounded_check('c05_histories', _b().c05_histories, Nmax=3, walks=q(run, 45, 2500), steps=q(run, 10, 30))
     run.bounded_check('c06_measure', _b().c06_measure, Nmax=2, count=q(run, 25, 400), reps=q(run, 2, 5))
-    return 'other', ('bounded: random histories from every constructor with the tableau invariant and dense validity checked after every '
-                     'public call; per-operation check for all N=1 tableaux; deductive part so far: row permutation of map_to_state and the '
-                     'row-level contract of clifford_rotate')
+    return 'other', ('deductive (all N): the tableau invariant is preserved by the measurement / projection / post-selection kernels, by rotation and map transformation (global and on any '
+                     'qubit subset), by every kind of gate - generator, map, and the RANDOM gate that resamples random_clifford_map at every call (every draw: the recursive sampler '
+                     'random_clifford is proved to return a table with the canonical commutation relations) -, and it holds for zero / maximally mixed / random_pauli_state / '
+                     'random_clifford_state of every rank; bounded: random histories from every constructor with the invariant and dense validity checked after every '
+                     'public call; per-operation check for all N=1 tableaux')
 
 
 def C06(run):
@@ -191,14 +199,17 @@ def C15(run):
 
 
 def C16(run):
-    run.deductive(keys=[U + 'random_pair', U + 'front', U + 'acq', U + 'random_pauli', ST + 'random_pauli_map', U + 'pauli_diagonalize2', U + 'pauli_is_onsite'],
-                  lemmas=['acq_diff2', 'onsite_flat', 'acq_antisym', 'acq_local', 'rot_preserve', 'acq_bilinear', 'acqsum_ext', 'acq_zero'])
+    run.deductive(keys=[U + 'random_pair', U + 'front', U + 'acq', U + 'random_pauli', ST + 'random_pauli_map', U + 'pauli_diagonalize2', U + 'pauli_is_onsite'] + RANDOM_CLIFFORD + RANDOM_STATE,
+                  lemmas=['acq_diff2', 'onsite_flat', 'acq_antisym', 'acq_local', 'rot_preserve', 'acq_bilinear', 'acqsum_ext', 'acq_zero', 'acq_drop2'])
     run.bounded_check('c16_random', _b().c16_random, Nmax=3, samples=q(run, 25, 400), n1=q(run, 4800, 96000), n2=q(run, 36000, 576000))
     return 'other', ('deductive (all N, every RNG draw an unconstrained value): random_pair returns a non-identity string and a string anticommuting with it; '
                      'random_pauli / random_pauli_map return a valid block-diagonal Clifford map (canonical commutation relations, Hermitian signs); '
-                     'pauli_diagonalize2 (the step random_clifford is built on) returns generators whose signless rotations, applied in order to BOTH '
-                     'strings, turn any anticommuting pair into (Z, X or Y) on the target qubit; '
-                     'bounded: validity of every other sampler; uniformity by chi-square with an 8-sigma threshold on N=1 (24 elements) and N=2 '
+                     'pauli_diagonalize2 returns generators whose signless rotations, applied in order to BOTH '
+                     'strings, turn any anticommuting pair into (Z, X or Y) on the target qubit; random_clifford (the recursive sampler, a function nested in a function, '
+                     'recursion on a sub-block view of the table) returns a table with the canonical commutation relations for every draw and every N - induction over '
+                     'the recursion with the measure cols(gs): block-diagonal valid table, then rotated by the diagonalising generators (rot_preserve) -; '
+                     'random_clifford_map / random_clifford_state / random_pauli_state and the resampling gate inherit validity through the to_state duality and the gate contracts; '
+                     'bounded: validity of the brick-wall / on-site / global circuit constructors; uniformity by chi-square with an 8-sigma threshold on N=1 (24 elements) and N=2 '
                      '(720 symplectic classes); resampling of map-less gates; fairness of sign bits and coins statistically (not a contract)')
 
 
@@ -251,7 +262,7 @@ TECHNIQUE = {
     'C02': 'deductive contracts (z3): clifford_rotate, rotate_by (unmasked, masked, on states with the tableau invariant, on single Paulis), clifford_rotation_map, double-rotation lemma; bounded dense-matrix stand-in for U^dagger P U, all masks and receivers',
     'C03': 'deductive contracts (z3): pauli_combine / pauli_transform as ordered products, transform_by (unmasked, masked, on states), homomorphism lemma chain (valid maps preserve commutation and Hermiticity); bounded dense-matrix stand-in',
     'C04': 'deductive contracts (z3): z2inv by the Gauss-Jordan augmented-matrix invariant, CliffordMap.inverse (inverse o map = identity, strings and phases), compose as functional contract, identity_map; bounded: two-sidedness, associativity on maps, N=1 exhaustive, sparse maps up to N=12',
-    'C05': 'deductive (z3, all N): tableau invariant preserved by the measure / project / projection_trace / postselection kernels, by state rotation and map transformation (global and on any qubit subset), by every kind of deterministic gate, by to_state / copy / measure / postselect glue; bounded random histories for layer / circuit traversal',
+    'C05': 'deductive (z3, all N): tableau invariant preserved by the measure / project / projection_trace / postselection kernels, by state rotation and map transformation (global and on any qubit subset), by every kind of gate incl. the resampling random gate, by to_state / copy / measure / postselect glue, for the zero / mixed / random state constructors; bounded random histories for layer / circuit traversal',
     'C06': 'deductive per-observable step contract of stabilizer_measure (Born rule / projection postulate in algebraic form, both coins) and measure glue (z3); bounded dense-matrix oracle for the identification with matrices',
     'C07': 'deductive contracts on stabilizer_expect, stabilizer_projection_trace, expect(list / state), get_prob as side-effect-free query (z3); bounded dense trace oracle',
     'C08': 'deductive contracts (z3): z2rank = GF(2) rank (abstract rank + three assumed classical lemmas, echelon invariant), stabilizer_entropy / StabilizerState.entropy = the textbook rank formulas; bounded dense von Neumann entropy oracle for the bridge',
@@ -262,7 +273,7 @@ TECHNIQUE = {
     'C13': 'bounded conformance testing torch vs numpy port (tensor code is outside the fragment of the VC generator)',
     'C14': 'deductive contracts on stabilizer_measure, stabilizer_postselection, postselect, MeasureLayer.forward (z3); bounded dense trajectory oracle for circuits',
     'C15': 'deductive contracts (z3, complex numbers abstract): products of polynomials / Pauli @ monomial, negation, number multiples, copy; bounded dense-matrix oracle over random expression trees for sums, reduce, trace',
-    'C16': 'deductive validity for every RNG draw (z3): random_pair, random_pauli / random_pauli_map, pauli_diagonalize2 (the step random_clifford rests on); bounded validity checks and chi-square counting on finite groups',
+    'C16': 'deductive validity for every RNG draw (z3): random_pair, random_pauli / random_pauli_map, pauli_diagonalize2, the recursive sampler random_clifford (induction over its recursion), random_clifford_map, the random states and the resampling gate; bounded validity of the circuit constructors and chi-square counting on finite groups',
     'C17': 'deductive frame conditions (modifies clauses, freshness of results) of every function under contract (z3); bounded snapshot checks for copies and queries of the class layer',
     'C18': 'deductive contracts (z3): front / pauli_is_onsite / pauli_diagonalize1 / pauli_diagonalize2 / condense / clifford_rotation_gate (gate of G = rotation by G); bounded exhaustive diagonalisation check, SBRG',
     'C19': 'deductive contract on pauli_combine (sampled rows are ordered products); bounded membership / expansion / shadow checks',
